@@ -49,6 +49,9 @@ type GenOpts struct {
 	LitSkew  bool
 	MediaMax int // longest Consumes / Produces list (0: 2); beyond 4 the pool is extended by MoreMedias
 	CondMax  int // most If-conditions per route (0: 2)
+	// DupNames: now and then a variable gets the name of the variable declared before it (/nodes/{id}/edges/{id}): which value
+	// a handler then sees under that name is not specified, but two routers (or two runs) must agree on it
+	DupNames bool
 }
 
 // MoreMedias extends the media pool for long Consumes / Produces lists.
@@ -93,6 +96,9 @@ type genState struct {
 }
 
 func (g *genState) name() string {
+	if g.o.DupNames && g.vars > 0 && g.r.Chance(1, 8) {
+		return fmt.Sprintf("v%d", g.vars)
+	}
 	g.vars++
 	return fmt.Sprintf("v%d", g.vars)
 }
